@@ -952,6 +952,36 @@ class _Builder:
             p.env[v.func.value.id] = ("call", ("builtin", "sorted"), (t[1][1],), t[3])
         return [p]
 
+    def _empty_so_far(self, t, p) -> bool:
+        """``t`` is a container allocated empty on this path and not mutated (or handed to anything) since."""
+        if not (op(t) == "new" and len(t) > 4):
+            return False
+        init = t[4]
+        if not ((op(init) in ("dict", "list", "set", "tuple") and not init[1]) or (isinstance(init, tuple) and len(init) == 2 and init[1] == ())):
+            return False
+        for ev in p.events:
+            for x in (ev.a, ev.b):
+                if not isinstance(x, tuple):
+                    continue
+                if ev.kind == "bind" and x is ev.b and x == t:
+                    continue  # the allocation itself / an alias
+                if ev.kind == "guard":
+                    continue
+                if contains(x, lambda y: y == t):
+                    return False
+        return True
+
+    def _fold_empty_len(self, test, p):
+        if not contains(test, lambda y: op(y) == "call" and y[1] == ("builtin", "len") and len(y[2]) == 1 and op(y[2][0]) == "new"):
+            return test
+        from .terms import substitute as _sub
+
+        m = {}
+        for y in subterms(test):
+            if op(y) == "call" and y[1] == ("builtin", "len") and len(y[2]) == 1 and op(y[2][0]) == "new" and self._empty_so_far(y[2][0], p):
+                m[y] = ("const", 0)
+        return _sub(test, m) if m else test
+
     def _is_callable_object(self, t) -> bool:
         if op(t) in ("bound", "lambda", "func", "cls"):
             return True
@@ -1331,6 +1361,18 @@ class _Builder:
                                 q.env[k_] = val
                         out.extend(self._branch2(q, substitute(test, {hc: val}), pol, lineno, then_fn, else_fn))
                     return out
+        test = self._fold_empty_len(test, p)
+        if op(test) == "cmp" and test[1] in ("<", "<=", ">", ">=", "!=", "==") and is_const(test[2]) and is_const(test[3]) and type(test[2][1]) is int and type(test[3][1]) is int:
+            import operator as _o
+
+            val = {"<": _o.lt, "<=": _o.le, ">": _o.gt, ">=": _o.ge, "!=": _o.ne, "==": _o.eq}[test[1]](test[2][1], test[3][1])
+            return then_fn([p]) if (val == pol) else else_fn([p])
+        if op(test) == "new" and test[1] in ("dict", "list", "set") and self._empty_so_far(test, p):
+            # the truth value of a container this path has just created empty and not touched since
+            return then_fn([p]) if (False == pol) else else_fn([p])  # noqa: E712
+        if is_const(test) and (test[1] is None or isinstance(test[1], (bool, int, str, float, bytes))):
+            # the truth value of a literal (after copy propagation: `x = None` ... `if x:`) is decided
+            return then_fn([p]) if (bool(test[1]) == pol) else else_fn([p])
         if op(test) == "cmp" and is_const(test[2]) and is_const(test[3]) and test[1] in ("is", "=="):
             # a comparison of two literals (after copy propagation) is decided
             a_, b_ = test[2][1], test[3][1]
